@@ -254,7 +254,23 @@ def k_glue(src: Path, parse) -> str:
             node = None
     if not ext_ok:
         raise Untranslatable("new_filereader", "extension chain changed")
+    tcat = parse(src, "yaw/catalog/catalog.py")
+    tmpl = None
+    for n in tcat.body:
+        if isinstance(n, ast.Assign) and ast.unparse(n.targets[0]) == "PATCH_NAME_TEMPLATE" and isinstance(n.value, ast.Constant):
+            tmpl = n.value.value
+    if not isinstance(tmpl, str):
+        raise Untranslatable("PATCH_NAME_TEMPLATE", "not a string literal")
+    gid = [ast.unparse(x) for x in _strip_doc(find_function(tcat, "get_id_from_patch_path").body)]
+    gpp = ast.unparse(_strip_doc(find_function(tcat, "get_patch_path_from_id").body)[-1])
+    id_ok = (gid == ["_, id_str = Path(cache_path).name.split('_')", "return int(id_str)"]
+             and gpp == "return Path(cache_directory) / PATCH_NAME_TEMPLATE.format(patch_id)")
     return "\n".join([
+        "/-- name of a patch directory -/",
+        f'def patchNameTemplate : String := "{tmpl}"',
+        "/-- `get_id_from_patch_path` splits the directory name at '_' into exactly two parts and parses the second as an integer; "
+        "`get_patch_path_from_id` formats the template -/",
+        f"def idFromPathAsModelled : Bool := {'true' if id_ok else 'false'}",
         "/-- `new_filereader`: reader class per lower-cased file extension; every other extension raises ValueError -/",
         "def readerExtensions : List (String × String) := [" + ", ".join(f'("{a}", "{b}")' for a, b in table) + "]",
         "/-- FITS columns reach the chunk through a VALUE-PRESERVING change of byte order: the dtype's byte-order label and the bytes are "
